@@ -71,9 +71,16 @@ def run_inprocess(argv):
 
 
 def run_subprocess(argv, cwd, timeout=180):
-    """`python -m emsarray ...` in a fresh interpreter; PYTHONPATH (and with it a mutated source tree) is inherited."""
+    """`python -m emsarray ...` in a fresh interpreter; PYTHONPATH (and with it a mutated source tree) is inherited.
+
+    The child uses dask's synchronous scheduler like every harness worker does (DASK_SCHEDULER): with the threaded
+    default, netCDF4 / HDF5 in this environment sporadically fail inside open_mfdataset ("NetCDF: HDF error", or a
+    crash) - thread-safety of the trusted base, not part of the property.
+    """
+    env = dict(os.environ)
+    env['DASK_SCHEDULER'] = 'synchronous'
     proc = subprocess.run([sys.executable, '-m', 'emsarray'] + [str(a) for a in argv], cwd=cwd, capture_output=True,
-                          text=True, timeout=timeout, env=dict(os.environ))
+                          text=True, timeout=timeout, env=env)
     return CliResult(proc.returncode, proc.stderr, proc.stdout, 'subprocess')
 
 
